@@ -1,6 +1,7 @@
 use minicbor::{Decode, Encode};
 use sealed::sealed;
 use serde::{Deserialize, Serialize};
+use std::cell::Cell;
 use std::path::{Path, PathBuf};
 use std::sync::{Arc, RwLock};
 
@@ -23,6 +24,26 @@ pub(crate) enum SerializeMode {
 impl Default for SerializeMode {
     fn default() -> Self {
         Self::NoInclude
+    }
+}
+
+thread_local! {
+    /// The serialisation mode that is in effect on the current thread while a stand-off file is
+    /// being serialised, along with the (address of the) mode cell of the configuration it applies to.
+    /// It is deliberately not written to that cell: the cell is shared by all clones of a configuration,
+    /// so anything serialising the same store on another thread at that moment would see it too.
+    static SERIALIZE_MODE_OVERRIDE: Cell<Option<(usize, SerializeMode)>> = Cell::new(None);
+}
+
+/// Returned by [`Config::set_serialize_mode()`], restores the previous serialisation mode of the
+/// current thread when it goes out of scope.
+pub(crate) struct SerializeModeGuard {
+    previous: Option<(usize, SerializeMode)>,
+}
+
+impl Drop for SerializeModeGuard {
+    fn drop(&mut self) {
+        SERIALIZE_MODE_OVERRIDE.with(|mode| mode.set(self.previous));
     }
 }
 
@@ -317,12 +338,16 @@ impl Config {
         self.debug
     }
 
-    /// Sets the mode for (de)serialization. This is a low-level method that you won't need directly.
-    pub(crate) fn set_serialize_mode(&self, mode: SerializeMode) {
+    /// Sets the mode for (de)serialization of everything that shares this configuration, on the current
+    /// thread and until the returned guard is dropped. Other threads that serialise at the same time are
+    /// not affected. This is a low-level method that you won't need directly.
+    #[must_use]
+    pub(crate) fn set_serialize_mode(&self, mode: SerializeMode) -> SerializeModeGuard {
         #[cfg(stam_verif)]
         crate::verif_hooks::yield_point("config.set_serialize_mode");
-        if let Ok(mut serialize_mode) = self.serialize_mode.write() {
-            *serialize_mode = mode;
+        let key = Arc::as_ptr(&self.serialize_mode) as usize;
+        SerializeModeGuard {
+            previous: SERIALIZE_MODE_OVERRIDE.with(|current| current.replace(Some((key, mode)))),
         }
     }
 
@@ -330,6 +355,11 @@ impl Config {
     pub(crate) fn serialize_mode(&self) -> SerializeMode {
         #[cfg(stam_verif)]
         crate::verif_hooks::yield_point("config.serialize_mode");
+        if let Some((key, mode)) = SERIALIZE_MODE_OVERRIDE.with(|current| current.get()) {
+            if key == Arc::as_ptr(&self.serialize_mode) as usize {
+                return mode;
+            }
+        }
         if let Ok(serialize_mode) = self.serialize_mode.read() {
             *serialize_mode
         } else {
